@@ -385,6 +385,9 @@ def canon_call(func, args, kws):
             return ("cols", items)
     if func == G("numpy.transpose") and len(args) == 1 and not kws:
         return canon_attr(args[0], "T")
+    if func == G("getattr") and len(args) == 2 and not kws and args[1][0] == "const" and isinstance(args[1][1], str):
+        return canon_attr(args[0], args[1][1])
+
     if func[0] == "global" and func[1] in _CMP_FUNCS and len(args) == 2 and not kws:
         return ("cmp", _CMP_FUNCS[func[1]], args[0], args[1])
     # expand *tuple
@@ -878,7 +881,14 @@ class TermBuilder:
         kws = []
         for k in e.keywords:
             if k.arg is None:
-                kws.append(("**", T(k.value)))
+                v = T(k.value)
+                # f(**{"a": x}) is f(a=x), and so is a forwarded **kwargs whose content the inliner knows; a local dict
+                # that is filled by later stores is NOT expanded (its term is only the initial display)
+                if v[0] == "dict" and all(kk[0] == "const" and isinstance(kk[1], str) and kk[1] != "**" for kk, _ in v[1]) \
+                        and (isinstance(k.value, ast.Dict) or self._is_forwarded_kwargs(k.value)):
+                    kws.extend((kk[1], vv) for kk, vv in v[1])
+                else:
+                    kws.append(("**", v))
             else:
                 kws.append((k.arg, T(k.value)))
         t = canon_call(func, tuple(args), tuple(kws))
@@ -890,6 +900,21 @@ class TermBuilder:
             if r is not None:
                 return r
         return t
+
+    def _is_forwarded_kwargs(self, node):
+        """node is the function's own **kwargs formal, bound by the inliner and never rebound or mutated here."""
+        kw = getattr(self.fn.node.args, "kwarg", None)
+        if not (isinstance(node, ast.Name) and kw is not None and kw.arg == node.id and node.id in self.bindings):
+            return False
+        if any(d.kind != "param" for d in self.rd.all_defs(node.id)):
+            return False
+        for n in _own_walk(self.fn.node):
+            if isinstance(n, (ast.Subscript, ast.Attribute)) and isinstance(n.value, ast.Name) and n.value.id == node.id:
+                if isinstance(n, ast.Subscript) and not isinstance(n.ctx, ast.Load):
+                    return False
+                if isinstance(n, ast.Attribute) and n.attr in ("update", "pop", "setdefault", "clear", "popitem"):
+                    return False
+        return True
 
     def resolve_callee(self, f):
         """Return (FunctionInfo, receiver term) for a statically resolvable repo callee."""
